@@ -306,6 +306,11 @@ def recipe(draw, forms=None):
         else:
             r["sigs"] = [[draw(st.integers(0, max(0, min(n, 4) - 1))), draw(sig_style()), draw(hashtype_legacy())] for _ in range(draw(st.integers(0, m + 1)))]
             r["sorted_sigs"] = draw(st.booleans())
+        if m > n:
+            # as many (empty) signatures as are asked for, so that the count itself is what decides: an error in Core, where a library that only found no
+            # signature matching would push false -- and the NOT variant turn that into true
+            r["sigs"] = [[0, "empty", 1] for _ in range(m)]
+            r["sorted_sigs"] = False
         r["dummy"] = draw(st.sampled_from(["", "", "00", "01", "51"]))
         r["verify_variant"] = draw(st.sampled_from([False, True, "not", "not"]))
         r["m_push"] = draw(st.sampled_from(["op", "op", "nonminimal"]))
